@@ -251,6 +251,37 @@ func (p *Project) writeUserCrops(pdst string) error {
 	return nil
 }
 
+// EarliestDay is the smallest day number the project writes in the configured date format (rotation, schedules,
+// measurements, groundwater series, end date).
+func (p *Project) EarliestDay() int {
+	min := p.Cfg.End
+	see := func(n int) {
+		if n > 0 && n < min {
+			min = n
+		}
+	}
+	for _, r := range p.Rotation {
+		see(r.Sow)
+		see(r.Harv)
+	}
+	for _, e := range p.Fert {
+		see(e.Date)
+	}
+	for _, e := range p.Irr {
+		see(e.Date)
+	}
+	for _, e := range p.Till {
+		see(e.Date)
+	}
+	if p.Measure != nil {
+		see(p.Measure.Date)
+	}
+	for _, g := range p.GWSeries {
+		see(g.Date)
+	}
+	return min
+}
+
 // Args returns the batch line arguments of the project.
 func (p *Project) Args() []string {
 	a := []string{"project=" + p.Name, "plotNr=" + p.PlotNr, "poligonID=" + p.PolyID, "soilId=" + p.Soil.ID,
